@@ -13,7 +13,7 @@ META = {
     "assumptions": ["serde_json::Number::as_i64/as_u64/as_f64 behave as documented (modelled)",
                     "the abstract interpreter models the Rust subset used in these functions; anything else is reported as incomplete"],
     "trusted_base": ["syn 2 parser", "lib/absint.py", "oracle tables in lib/valtables.py (RFC 8610 transcription)"],
-    "technique": "static analysis: abstract interpretation of extracted syntax over order types + dispatch exhaustiveness",
+    "technique": "static analysis: abstract interpretation of extracted syntax over order types and document kinds (comparison, range, occurrence, control-operator and prelude tables against RFC 8610), no-vacuous-accept and target-first path rules, dispatch exhaustiveness",
 }
 
 
